@@ -1,8 +1,9 @@
 (* C31 obligation: a first-order initial value problem y' = F(y) with causal F has at most
-   one solution modulo x^(n+1); linear version y' a = b with a(0) <> 0. *)
+   one solution modulo x^(n+1); linear version y' a = b with a(0) <> 0; coupled pairs
+   y1' = g y2, y2' = sg g y1 (sin/cos, sinh/cosh); the pair (W, E) of the Lambert W problem. *)
 From Coq Require Import QArith List ZArith NArith.
 From SE Require Import C31.VisitorModel.
-From SE Require Import C31.SeriesSpec C31.Invert C31.SeriesProofs.
+From SE Require Import C31.SeriesSpec C31.Invert C31.Hyp C31.Lambert C31.SeriesProofs.
 Local Open Scope Q_scope.
 Theorem C31_ode_unique :
   forall (F : ps -> ps) (n : nat) (y z : ps),
@@ -12,5 +13,21 @@ Theorem C31_lin_ode_unique :
   forall (n : nat) (a b y z : ps),
     ~ a O == 0 -> eqn n (pD y * a)%ps b -> eqn n (pD z * a)%ps b -> y O == z O -> eqn (S n) y z.
 Proof. exact lin_ode_unique. Qed.
+Theorem C31_ode_unique_pair :
+  forall (g : ps) (sg : Q) (n : nat) (y1 y2 z1 z2 : ps),
+    eqn n (pD y1) (g * y2)%ps -> eqn n (pD y2) (pscale sg (g * y1)%ps) ->
+    eqn n (pD z1) (g * z2)%ps -> eqn n (pD z2) (pscale sg (g * z1)%ps) ->
+    y1 O == z1 O -> y2 O == z2 O ->
+    eqn (S n) y1 z1 /\ eqn (S n) y2 z2.
+Proof. exact ode_unique_pair. Qed.
+Theorem C31_lambert_unique :
+  forall (n : nat) (s w1 E1 w2 E2 : ps),
+    w1 O == 0 -> w2 O == 0 -> E1 O == 1 -> E2 O == 1 ->
+    eqn (n - 1) (pD E1) (pD w1 * E1)%ps -> eqn (n - 1) (pD E2) (pD w2 * E2)%ps ->
+    eqn n (w1 * E1)%ps s -> eqn n (w2 * E2)%ps s ->
+    eqn n w1 w2 /\ eqn n E1 E2.
+Proof. exact lambert_unique. Qed.
 Print Assumptions C31_ode_unique.
+Print Assumptions C31_ode_unique_pair.
+Print Assumptions C31_lambert_unique.
 Print Assumptions C31_lin_ode_unique.
